@@ -20,6 +20,16 @@ def gen_cases(rng, ncls, per):
             if c["ropts"] is None and rng.random() < 0.15 and all(isinstance(k, str) and k.isidentifier() for k in data):
                 c["entry"] = "init"
             cases.append(c)
+    pairs = fieldgen.feature_pairs()
+    rng.shuffle(pairs)
+    for i, feats in enumerate(pairs * (2 if ncls < 1000 else 8)):
+        try:
+            name, src, fields, okw = fieldgen.declare_small(rng, first_feats=feats, forced_dfs=bool(i % 2))
+        except RuntimeError:
+            continue
+        srcs[name] = src
+        for data in fieldgen.state_inputs(rng, fields, limit=30):
+            cases.append(dict(cls=name, ropts=None, data=data))
     return cases, srcs
 
 
@@ -110,7 +120,7 @@ def main(tier, seed):
     res = core.Result(PID, tier, seed)
     core.prove(res, PID)
     rng = random.Random(seed * 127 + 5)
-    ncls, per = (220, 8) if tier == "quick" else (2500, 12)
+    ncls, per = (120, 8) if tier == "quick" else (2500, 12)
     cases, srcs = gen_cases(rng, ncls, per)
     r = dcsuite.run_suite(res, cases, "fields",
                           rule="random Schema / DataClass declarations over every Field parameter (default, default_factory, "
